@@ -67,7 +67,7 @@ TRet == /\ l <= Len(Rec) /\ E.ev = "ret" /\ pc[E.c] \in {"registered", "waiting"
              [] E.cls = "err" ->
                   \* drained by the failing reader, or its own write failed on the shut writer
                   /\ \/ (chan[E.c] # <<>> /\ Head(chan[E.c]).cls = "err" /\ chan' = [chan EXCEPT ![E.c] = Tail(@)] /\ UNCHANGED pending)
-                     \/ (writerShut /\ pc[E.c] = "registered" /\ pending' = pending \ {cid[E.c]} /\ UNCHANGED chan)
+                     \/ ((writerShut \/ M!Faulted) /\ pc[E.c] = "registered" /\ pending' = pending \ {cid[E.c]} /\ UNCHANGED chan)
              [] E.cls \in {"timeout", "cancelled"} ->
                   /\ pending' = pending \ {cid[E.c]} /\ chan' = [chan EXCEPT ![E.c] = <<>>]
              [] OTHER -> FALSE                                  \* "hung"
